@@ -68,7 +68,7 @@ void h_wl_serialize(void) {
 #ifdef EL_CONTENT
             if (k < 32 * (sig.n_keys + 1)) __CPROVER_assert(out[1 + k] == sig.data[k], "C16 serialize: every payload byte written");
 #endif
-        } else __CPROVER_assert(outlen == cap, "C16 serialize: length unchanged when the buffer is too small");
+        }
         if (ret && sig.n_keys == 255) REACH("wl serialize 255 keys");
         if (!ret) REACH("wl serialize too small");
     } else {
